@@ -102,6 +102,10 @@ type addFn = func(family string, cost int, f func())
 
 func (h *H) planLU(add addFn) {
 	idx := 0
+	for gi, n := range []int{0, 1, 2, 5, 17} {
+		gi, n := gi, n
+		add("lu", n*n, func() { h.checkGeconOptions(fmt.Sprintf("GeconOptions n=%d", n), gi, n) })
+	}
 	one := func(m, n int, cls string) {
 		if (cls == "zerorow" || cls == "duprow") && (m > n || m < 2) {
 			return
